@@ -262,7 +262,7 @@ def seeded_jobs(ctx):
         add(fn="makerandCIJ_und" if und else "makerandCIJ_dir", n=n, k=rng.choice([0, 1, m - 1, m, rng.randint(0, m)]))
     # narrow-typed sizes at the node counts where products of the size wrap in its own type (seed
     # round 7): int8 from n = 12, uint8 from 17, int16 from 182, uint16 from 257; K anywhere in 0..full
-    for _ in range(60 if q else 600):
+    for _ in range(48 if q else 150):      # (records of up to 300 x 300 cells: kept few)
         ty = rng.choice(["np8", "npu8", "np8", "npu8", "np16", "npu16"])
         n = {"np8": rng.randint(12, 127), "npu8": rng.randint(17, 255),
              "np16": rng.randint(182, 230), "npu16": rng.randint(257, 300)}[ty]
